@@ -200,6 +200,9 @@ structure Tracker where
   contractedSize : Nat
   sizeChange : Int
   flopsChange : Nat
+  /-- ghost field (not in the real tracker): the QR terms accumulated so far, so that the
+      correspondence can compare `flops - qr` (see `neighborhoodCompressCost`) -/
+  qr : Nat
 deriving Repr, BEq, DecidableEq
 
 namespace Tracker
@@ -209,12 +212,13 @@ def init (h : HG) (chi : Nat) : Tracker :=
   let szs := h.nodes.map (fun kv => h.nodeSize kv.1)
   let tot := szs.sum
   { chi := chi, flops := 0, maxSize := szs.foldl max 0, peakSize := tot, write := tot, totalSize := tot,
-    totalSizePostContract := 0, contractedSize := 0, sizeChange := 0, flopsChange := 0 }
+    totalSizePostContract := 0, contractedSize := 0, sizeChange := 0, flopsChange := 0, qr := 0 }
 
 def preStep (t : Tracker) : Tracker := { t with sizeChange := 0, flopsChange := 0 }
 def preCompress (t : Tracker) (h : HG) (ns : List Nat) : Tracker :=
   { t with sizeChange := t.sizeChange - h.neighborhoodSize ns,
-           flopsChange := t.flopsChange + h.neighborhoodCompressCost t.chi ns }
+           flopsChange := t.flopsChange + h.neighborhoodCompressCost t.chi ns,
+           qr := t.qr + h.neighborhoodCompressCost t.chi ns }
 def postCompress (t : Tracker) (h : HG) (ns : List Nat) : Tracker :=
   { t with sizeChange := t.sizeChange + h.neighborhoodSize ns }
 def preContract (t : Tracker) (h : HG) (i j : Nat) : Tracker :=
